@@ -297,7 +297,10 @@ func c17RunE2ETie(r *h.Result, sc *fakes.Script, q storage.Querier, c *c17E2ECas
 	}
 	got, err := c17Drain(q.Select(false, &storage.SelectHints{Start: c.Start, End: c.End}, ms...))
 	if execErr != nil {
-		return "", "", fmt.Errorf("reference interpreter: %v", execErr)
+		// the statement Select emitted cannot be executed (the reference interpreter refuses it: unbalanced, unknown
+		// function, …): a well-formed request got a statement ClickHouse would refuse — judged, not a reason to stop the run
+		r.Violate("C17/select-statement-not-executable", fmt.Sprintf("the statement of Select is refused by the reference interpreter: %v", execErr), *c)
+		return "", "", nil
 	}
 	if err != nil {
 		return "", "", fmt.Errorf("Select: %v", err)
@@ -305,7 +308,8 @@ func c17RunE2ETie(r *h.Result, sc *fakes.Script, q storage.Querier, c *c17E2ECas
 	if sampleSQL != "" {
 		tieOp, tieImpl, err = c17FpEvalTie(db, c, ms, sampleSQL)
 		if err != nil {
-			return "", "", err
+			r.Violate("C17/select-statement-not-executable", fmt.Sprintf("the fp_sel sub-query of Select's statement cannot be isolated or executed: %v", err), *c)
+			return "", "", nil
 		}
 	}
 	c17SeriesOrder(r, got, *c) // the SeriesSet level: strictly ascending by labels.Compare
